@@ -219,6 +219,16 @@ def run(chk):
                               "  public override function area() -> int { int base = super.area(); return this.s * this.s + base; } }\n"
                               "function main() -> void { %s echo(x.sides()); echo(x.area()); }"
                               % (";" if absarea else " { return 1; }", midcls, "Poly" if mid else "Shape", via), "abstract-super"))
+    # static methods of a generic class called through the bare template name: with an argument (the type argument is inferred
+    # from it), without any, through a specialisation
+    for calls in ("echo(Registry.record(new Ticket())); echo(Registry.next());", "echo(Registry.next()); echo(Registry.next());",
+                  "echo(Registry.peek()); Registry.clear(); echo(Registry.next());", "Registry<Ticket> r = new Registry<Ticket>(); echo(Registry.next()); echo(r.own());"):
+        progs.append(("class Registry<T> { public static int issued = 0; public T last; public constructor() -> Registry<T> { }\n"
+                      "  public static function record(T item) -> int { issued = issued + 10; return issued; }\n"
+                      "  public static function next() -> int { issued = issued + 1; return issued; }\n"
+                      "  public static function peek() -> int { return issued; } public static function clear() -> void { issued = 0; }\n"
+                      "  public function own() -> int { return issued; } }\n"
+                      "class Ticket { public constructor() -> Ticket { } }\nfunction main() -> void { %s echo(\"done\"); }" % calls, "generic-static"))
     # members named like built-in gates: every gate x own arity x call form, inside and outside the class
     for g in ["h", "x", "y", "z", "rx", "ry", "rz", "cx"]:
         for params in ["", "int a", "int a, int b"]:
